@@ -10,6 +10,9 @@ package sumdb
 // (only in builds with the "verif" tag). The points are:
 //
 //	"claim"           before the record cache is consulted for a lookup
+//	"merge"           on entry to mergeLatestMem, before c.latest is read (args: len(msg))
+//	"check"           on entry to checkRecord, before c.latest is read (args: id)
+//	"cfgsnap"         before mergeLatest reads c.latestMsg for the configuration write
 //	"merge-snapshot"  after mergeLatestMem read c.latest (args: latest.N, tree.N)
 //	"install"         before mergeLatestMem takes the lock to install a newer tree (args: tree.N)
 //	"installed"       after the install attempt (args: installed bool, tree.N)
